@@ -6,6 +6,7 @@ from props import common as cm
 def run(tier):
     r = Run('C16', tier, level='other')
     cm.run_kernels(r, cm.kernels('c_coord2cell', 'c_intersect', 'c_voronoi'))
+    cm.run_monitors(r, ['mon_intersect_voronoi'])
     r.explanation = ('proved (Engine C): c_intersect lists each grid cell holding a catchment-cell centre exactly once with weight count x area ratio '
                      '(pigeonhole lemma external, Lean); c_voronoi memory safety, rejection of an empty point set, non-negative weights; '
                      'bounded: nearest-point fractions and sums (python monitors)')
